@@ -709,6 +709,7 @@ Proof.
   - apply wf_compress. auto.
   - apply wf_compress. apply Forall_wf_map; auto. intros e He. apply wf_ereplace. exact He.
   - apply Forall_wf_map; auto. intros e He. apply wf_ereplace. exact He.
+  - auto.
 Qed.
 End Trees.
 
@@ -937,6 +938,7 @@ Proof.
   - rewrite rep_compress, V_compress by wfr. auto.
   - rewrite rep_compress, V_compress by wfr. rewrite rep_rep. apply IHx. exact Hx.
   - rewrite rep_rep. apply IHx. exact Hx.
+  - apply IHx. exact Hx.
 Qed.
 
 Lemma pointwise (x : qx A T) t : wfx A T x -> V (build A T x) t = sem A T x t.
